@@ -732,6 +732,11 @@ func (e *endpoint) watchPoll(ctx context.Context, pollingInterval uint32, nonRec
 		e.verifGate("poll-before-lock")
 		e.lockScanLock(context.Background())
 
+		// Grab the endpoint's most recent snapshot before our scan replaces it.
+		// This will be our own previous snapshot unless Scan has performed a
+		// scan of its own in the meantime.
+		latest := e.snapshot
+
 		// Disable the use of the existing scan results.
 		e.accelerate = false
 
@@ -770,6 +775,15 @@ func (e *endpoint) watchPoll(ctx context.Context, pollingInterval uint32, nonRec
 		// Check for modifications.
 		modified := !snapshot.Equal(previous)
 
+		// Check whether or not a snapshot generated by Scan since our previous
+		// scan has become outdated. This happens (for example) when Transition
+		// changes the disk, the controller (driven by Transition's strobe of
+		// the poll signal) rescans, and those changes are then exactly reverted
+		// before our next scan, in which case the disk looks unmodified
+		// relative to our previous snapshot even though it no longer matches
+		// the snapshot that the controller was given.
+		outdated := latest != nil && latest != previous && !snapshot.Equal(latest)
+
 		// If we have a working non-recursive watcher, or we're performing trace
 		// logging, then perform a full diff to determine what's changed. This
 		// will let us determine the most recently updated paths that we should
@@ -792,7 +806,7 @@ func (e *endpoint) watchPoll(ctx context.Context, pollingInterval uint32, nonRec
 
 		// If we've seen modifications, and we're not ignoring them, then strobe
 		// the poll events channel.
-		if modified && !ignoreModifications {
+		if (modified || outdated) && !ignoreModifications {
 			// Log the modifications.
 			logger.Debug("Modifications detected")
 
